@@ -31,6 +31,11 @@ def cases(tier):
     for ch in F.chains(names, 2):
         for order in (("A", "B"), ("B", "A")):
             cs.append(F.pair(ch, end=end, order=order))
+    # delay-to-pull with several steps, with and without an initial pull of the consumer
+    for ch in ([["P", 2, 0]], [["P", 3, 0.5]], [["P", 2, 0], ["F", 1]], [["S", 2], ["P", 2, 0.5]]):
+        for pi in (True, False):
+            cs.append(F.pair(ch, end=end, pull_initial=pi))
+            cs.append(F.pair(ch, end=end, pull_initial=pi, order=("B", "A"), starts=(0, 1)))
     # several delay adapters on one link, acyclic: the producer must not be advanced further than needed
     for total in ([1, 2, 3] if q else [1, 1.5, 2, 2.5, 3, 4]):
         for mat in splits(total):
@@ -58,8 +63,21 @@ def cases(tier):
     return cs
 
 
+def with_stateless(cs, tier):
+    """every configuration is explored twice: snapshot BFS (deep horizon, state merging) and stateless DFS (each execution one
+    uninterrupted run() call, first choice points enumerated exhaustively) - the latter sees driver state carried across iterations"""
+    out = list(cs)
+    for c in cs:
+        if any(x.get("fixed") for x in c["comps"]):
+            continue
+        m = max(len(x.get("menu", [1])) for x in c["comps"] if x["kind"] == "T")
+        d = (5 if m >= 3 else 7) + (0 if tier == "quick" else 2)
+        out.append(dict(c, stateless=d))
+    return out
+
+
 def run(tier, seed, agg):
-    acheck.run_cases(cases(tier), CLAUSES, agg, None, seed)
+    acheck.run_cases(with_stateless(cases(tier), tier), CLAUSES, agg, None, seed)
     return dict(
         level="model_checking",
         rule="explicit-state BFS over the real Composition.run (step lengths are environment choices); on every update the updated component must be reachable from a "
